@@ -304,6 +304,87 @@ MULTI = [
             None => return None,
         };
 """)]),
+ # ---- file worker, level filter, template: equivalent spellings -----------------------------------------------------------
+ ("B.file_flush_sync_if_let", ["C10", "C11", "C07"], "emitter/file/src/lib.rs", [
+   ("""        file.file
+            .flush()
+            .map_err(|e| emit_batcher::BatchError::no_retry(e))?;
+        file.file
+            .sync_all()
+            .map_err(|e| emit_batcher::BatchError::no_retry(e))?;
+""", """        if let Err(e) = file.file.flush() {
+            return Err(emit_batcher::BatchError::no_retry(e));
+        }
+        match file.file.sync_all() {
+            Ok(()) => {}
+            Err(e) => return Err(emit_batcher::BatchError::no_retry(e)),
+        }
+""")]),
+ ("B.min_level_named_steps", ["C17"], "src/level.rs", [
+   ("""        evt.to_event()
+            .props()
+            .pull::<L, _>(KEY_LVL)
+            .as_ref()
+            .or_else(|| self.default.as_ref())
+            .unwrap_or(&L::default())
+            >= &self.min""", """        let evt = evt.to_event();
+        let own = evt.props().pull::<L, _>(KEY_LVL);
+        let fallback = L::default();
+        let level = own
+            .as_ref()
+            .or_else(|| self.default.as_ref())
+            .unwrap_or(&fallback);
+
+        level >= &self.min""")]),
+ ("B.path_map_lookup_match", ["C17"], "src/level.rs", [
+   ("""                let Ok(idx) = node
+                    .children
+                    .binary_search_by_key(&segment, |(key, _)| key.by_ref())
+                else {
+                    break;
+                };
+""", """                let idx = match node
+                    .children
+                    .binary_search_by_key(&segment, |(key, _)| key.by_ref())
+                {
+                    Ok(idx) => idx,
+                    Err(_) => break,
+                };
+""")]),
+ # ---- thread-local context: equivalent spellings ---------------------------------------------------------------------------
+ ("B.tl_ctxt_id_atomic_from_one", ["C03"], "src/platform/thread_local_ctxt.rs", [
+   ("""static NEXT_CTXT_ID: Mutex<usize> = Mutex::new(1);
+
+fn ctxt_id() -> usize {
+    let mut next_id = NEXT_CTXT_ID.lock().unwrap();
+    let id = *next_id;
+    *next_id = id.wrapping_add(1);
+
+    id
+}""", """static NEXT_CTXT_ID: std::sync::atomic::AtomicUsize = std::sync::atomic::AtomicUsize::new(1);
+
+fn ctxt_id() -> usize {
+    NEXT_CTXT_ID.fetch_add(1, std::sync::atomic::Ordering::Relaxed)
+}""")]),
+ ("B.tl_open_push_get_or_insert", ["C03", "C19"], "src/platform/thread_local_ctxt.rs", [
+   ("""        if span.props.is_none() {
+            span.props = Some(Arc::new(HashMap::new()));
+        }
+
+        let span_props = Arc::make_mut(span.props.as_mut().unwrap());
+""", """        let span_props = Arc::make_mut(span.props.get_or_insert_with(|| Arc::new(HashMap::new())));
+""")]),
+ ("B.tl_swap_entry_match", ["C03", "C18"], "src/platform/thread_local_ctxt.rs", [
+   ("""        let current = active
+            .entry(id)
+            .or_insert_with(|| ThreadLocalCtxtFrame { props: None });
+
+        mem::swap(current, incoming);""", """        let current = active
+            .entry(id)
+            .or_insert_with(|| ThreadLocalCtxtFrame { props: None });
+
+        let previous = mem::replace(current, ThreadLocalCtxtFrame { props: incoming.props.take() });
+        *incoming = previous;""")]),
 ]
 
 RENAMES = [
